@@ -807,9 +807,11 @@ class ChunkParser:
 
         # Put unused twprge and unused sections back into the working lists.
         if not self.last_twprge_used \
+                and self.working_twprge is not None \
                 and self.working_twprge != MasterConfig._ERR_TWPRGE:
             self.working_twprge_list.insert(0, self.working_twprge)
         if not self.last_sec_used \
+                and self.working_sec is not None \
                 and self.working_sec != [MasterConfig._ERR_SEC]:
             self.working_sec_list.insert(0, self.working_sec)
 
